@@ -444,3 +444,6 @@ func (g *Gen) RawInputs() []*RawObs {
 	}
 	return outs
 }
+
+// RandValue exposes the value generator (canonical text of a random value of type ty).
+func (g *Gen) RandValue(ty string) []byte { return g.randValue(ty, nil) }
